@@ -46,6 +46,36 @@ func findCountedLoop(phi *ssa.Phi) (*countedLoop, string) {
 			}
 		}
 	}
+	// the bound test one step behind a flag test: `for i := 0; more && i < N; i++` — the header tests the flag
+	// (leaving the loop when it fails) and goes straight on to the block that tests i < N
+	if iff, ok := lastInstr(phi.Block()).(*ssa.If); ok {
+		nl := naturalLoop(phi.Block())
+		for k, su := range phi.Block().Succs {
+			other := phi.Block().Succs[1-k]
+			if !nl[su] || nl[other] || len(su.Preds) != 1 {
+				continue
+			}
+			_ = iff
+			if iff2, ok := lastInstr(su).(*ssa.If); ok {
+				if b, ok := iff2.Cond.(*ssa.BinOp); ok && b.Op == token.LSS && b.X == ssa.Value(phi) && nl[su.Succs[0]] && !nl[su.Succs[1]] {
+					// nothing but the test in that block
+					pure := true
+					for _, in := range su.Instrs {
+						switch in.(type) {
+						case *ssa.BinOp, *ssa.If, *ssa.DebugRef, *ssa.UnOp:
+						default:
+							pure = false
+						}
+					}
+					if pure {
+						l.bound = b.Y
+						l.guards = append(l.guards, phi.Block(), su)
+						return l, ""
+					}
+				}
+			}
+		}
+	}
 	// rotated: latch tests next < N, pre-header tests 0 < N
 	for _, ref := range *next.Referrers() {
 		if b, ok := ref.(*ssa.BinOp); ok && b.Op == token.LSS && b.X == next {
